@@ -138,8 +138,7 @@ LCell(e) == LET n2 == NormSq(e) IN IF n2 = 0 THEN "zero" ELSE IF n2 < VL * VL TH
 
 (* direction pairs used by one behaviour: <<b1, |b1|, b2, |b2|>> *)
 VelDirs == IF Thorough
-           THEN { <<<<1,2,2>>,3, <<0,1,0>>,1>>, <<<<2,-3,6>>,7, <<4,0,-3>>,5>>, <<<<2,10,11>>,15, <<0,0,1>>,1>>,
-                  <<<<6,10,-33>>,35, <<-2,2,1>>,3>> }
+           THEN { <<<<1,2,2>>,3, <<0,1,0>>,1>>, <<<<2,10,11>>,15, <<0,0,1>>,1>>, <<<<6,10,-33>>,35, <<-2,2,1>>,3>> }
            ELSE { <<<<1,2,2>>,3, <<0,1,0>>,1>>, <<<<2,-3,6>>,7, <<4,0,-3>>,5>> }
 VelN    == IF Thorough THEN 4 ELSE 2
 VelBox  == 2 * VU
@@ -147,7 +146,6 @@ Along(b, nb, len) == VScale(len \div nb, b)                    \* the vector of 
 (* commanded set-point displacements (world frame): along both directions of the behaviour *)
 VelDs(dr) == { Zero3, Along(dr[1], dr[2], VU \div 2), VNeg(Along(dr[1], dr[2], VU \div 2)), Along(dr[1], dr[2], VU),
                Along(dr[3], dr[4], VU \div 2) }
-               \cup (IF Thorough THEN { VNeg(Along(dr[3], dr[4], VU)) } ELSE {})
 (* vehicle motion: along the first direction only (keeps the graph small) *)
 VelMs(dr) == { Along(dr[1], dr[2], VU \div 2), VNeg(Along(dr[1], dr[2], VU)), Along(dr[1], dr[2], 3 * VU) }
 VelYis  == {-1, 0, 1}
